@@ -34,6 +34,8 @@ func init() {
 	addSelfTests("C20",
 		mutation{"no-validation", "kv/aof/kv.go", "			if mutError = d.validateMutation(m.mut); mutError != nil {\n				// rejected by the current state: it must never reach the log\n			} else if logError := d.appendLog(m.mut); logError == nil {", "			if logError := d.appendLog(m.mut); logError == nil {", "wal-discipline"},
 		mutation{"validation-wrong-kind", "kv/aof/mutation.go", "	case proto.MutationType_PREFIX_APPEND:\n		exists, err", "	case proto.MutationType_PREFIX_REMOVE:\n		exists, err", "wal-discipline"},
+		mutation{"import-split-into-chunks", "kv/aof/mutation.go", "func (d *DiskKV) Import(ctx context.Context, keys [][]byte, values []*protocol.KVTransfer) error {\n	return d.mutationHandler(func(mut *proto.Mutation) {", "func (d *DiskKV) Import(ctx context.Context, keys [][]byte, values []*protocol.KVTransfer) error {\n	for len(keys) > 64 {\n		if err := d.importKeys(keys[:64], values[:64]); err != nil {\n			return err\n		}\n		keys, values = keys[64:], values[64:]\n	}\n	return d.importKeys(keys, values)\n}\n\nfunc (d *DiskKV) importKeys(keys [][]byte, values []*protocol.KVTransfer) error {\n	return d.mutationHandler(func(mut *proto.Mutation) {", "wal-discipline"},
+		mutation{"import-through-helper", "kv/aof/mutation.go", "func (d *DiskKV) Import(ctx context.Context, keys [][]byte, values []*protocol.KVTransfer) error {\n	return d.mutationHandler(func(mut *proto.Mutation) {", "func (d *DiskKV) Import(ctx context.Context, keys [][]byte, values []*protocol.KVTransfer) error {\n	return d.importKeys(keys, values)\n}\n\nfunc (d *DiskKV) importKeys(keys [][]byte, values []*protocol.KVTransfer) error {\n	return d.mutationHandler(func(mut *proto.Mutation) {", "!wal-discipline"},
 		mutation{"validation-by-if", "kv/aof/mutation.go", "	switch mut.GetType() {\n	case proto.MutationType_PREFIX_APPEND:\n		exists, err := d.memKv.PrefixContains(context.Background(), mut.GetKey(), mut.GetValue())\n		if err != nil {\n			return err\n		}\n		if exists {\n			return chord.ErrKVPrefixConflict\n		}\n	}\n	return nil", "	if mut.GetType() != proto.MutationType_PREFIX_APPEND {\n		return nil\n	}\n	exists, err := d.memKv.PrefixContains(context.Background(), mut.GetKey(), mut.GetValue())\n	if err != nil {\n		return err\n	}\n	if exists {\n		return chord.ErrKVPrefixConflict\n	}\n	return nil", "!wal-discipline"},
 		mutation{"validation-ignores-answer", "kv/aof/mutation.go", "		if exists {\n			return chord.ErrKVPrefixConflict\n		}", "		_ = exists", "wal-discipline"},
 		mutation{"counter-before-write", "kv/aof/log.go", "	if err := d.log.Write(d.counter, logBuf); err != nil {", "	d.counter += 1\n	if err := d.log.Write(d.counter-1, logBuf); err != nil {", "counter"},
@@ -58,6 +60,7 @@ func init() {
 		mutation{"unknown-version-accepted", "kv/aof/log.go", "	default:\n		err = fmt.Errorf(\"unknown log version: %s\", entry.GetVersion())", "	default:\n		err = mut.UnmarshalVT(entry.Data)", "replay-guard"},
 	)
 	addSelfTests("C23",
+		mutation{"tracker-dropped-before-children-counted", "kv/sqlite3/key_tracker.go", "	// Check for remaining values before removing flags\n	if removeFlags&PrefixFlag != 0 {", "	if (flags|addFlags)&^removeFlags == 0 {\n		_, err := tx.StmtContext(ctx, s.stmts.trackerDelete).Exec(key)\n		return err\n	}\n	// Check for remaining values before removing flags\n	if removeFlags&PrefixFlag != 0 {", "tracker-pairing"},
 		mutation{"tracker-outside-tx", "kv/sqlite3/simple.go", "	return withWriteTx(ctx, s.writer, func(tx *sql.Tx) error {\n		_, err := tx.StmtContext(ctx, s.stmts.simplePut).Exec(key, value)\n		if err != nil {\n			return err\n		}\n		return s.updateKeyTracker(ctx, tx, key, SimpleFlag, 0)\n	})", "	return withWriteTx(ctx, s.writer, func(tx *sql.Tx) error {\n		_, err := tx.StmtContext(ctx, s.stmts.simplePut).Exec(key, value)\n		return err\n	})", "tracker-pairing"},
 		mutation{"wrong-flag", "kv/sqlite3/prefix.go", "		return s.updateKeyTracker(ctx, tx, prefix, PrefixFlag, 0)", "		return s.updateKeyTracker(ctx, tx, prefix, SimpleFlag, 0)", "tracker-pairing"},
 		mutation{"flag-position-swapped", "kv/sqlite3/simple.go", "		return s.updateKeyTracker(ctx, tx, key, 0, SimpleFlag)", "		return s.updateKeyTracker(ctx, tx, key, SimpleFlag, 0)", "tracker-pairing"},
@@ -105,7 +108,65 @@ func stateRejections(c *Ctx, method string) []string {
 	return out
 }
 
+// oneEntryPerMutation: prefix-consistency after a crash is a statement about issued
+// mutations; it holds only if each issued mutation is ONE log entry. Every mutating method
+// of the AOF store hands exactly one request to the single writer - one mutationHandler
+// call site (its own or a helper's), not inside a loop.
+func oneEntryPerMutation(c *Ctx, rule string) {
+	n := 0
+	for _, m := range []string{"Put", "Delete", "PrefixAppend", "PrefixRemove", "Import", "RemoveKeys"} {
+		fn := c.FuncOpt("kv/aof", "DiskKV", m)
+		if fn == nil {
+			continue
+		}
+		n++
+		sites, inLoop := 0, false
+		var visit func(f *Fn, depth int, loop bool)
+		visit = func(f *Fn, depth int, loop bool) {
+			var stack []ast.Node
+			ast.Inspect(f.Body, func(x ast.Node) bool {
+				if x == nil {
+					stack = stack[:len(stack)-1]
+					return true
+				}
+				stack = append(stack, x)
+				call, ok := x.(*ast.CallExpr)
+				if !ok {
+					return true
+				}
+				within := loop
+				for _, s := range stack {
+					switch s.(type) {
+					case *ast.ForStmt, *ast.RangeStmt:
+						within = true
+					}
+				}
+				g := f.enclosing(call)
+				if g.IsCall(call, "kv/aof.DiskKV.mutationHandler") {
+					sites++
+					if within {
+						inLoop = true
+					}
+					return true
+				}
+				if depth < 3 {
+					if o := g.Callee(call); o != nil && o.Pkg() != nil && strings.HasSuffix(o.Pkg().Path(), "kv/aof") {
+						if h := c.FnOfObj(o); h != nil && h != f {
+							visit(h, depth+1, within)
+						}
+					}
+				}
+				return true
+			})
+		}
+		visit(fn, 0, false)
+		c.Ob(rule, "aof."+m+"#one-log-entry-per-issued-mutation", fn.Decl.Pos(), sites == 1 && !inLoop, fmt.Sprintf("the method hands exactly one request to the writer (one log entry): %d mutationHandler call site(s) reachable, in a loop: %v - a mutation split over several entries can be recovered half-applied, which no prefix of the issued history produces", sites, inLoop))
+	}
+	c.Floor("aof mutating methods", n, 6)
+}
+
 func runC20(c *Ctx) {
+	oneEntryPerMutation(c, "wal-discipline")
 	hm := c.Func("kv/aof", "DiskKV", "handleMutation")
 	start := c.Func("kv/aof", "DiskKV", "Start")
 	replay := c.Func("kv/aof", "DiskKV", "replayLogs")
@@ -706,6 +767,7 @@ func runC22(c *Ctx) {
 var flagOfTable = map[string]string{"simple_entries": "SimpleFlag", "prefix_entries": "PrefixFlag", "lease_entries": "LeaseFlag"}
 
 func runC23(c *Ctx) {
+	trackerDropAfterCount(c, "tracker-pairing")
 	stmts := sqliteStatements(c)
 	// withWriteTx
 	wt := c.Func("kv/sqlite3", "", "withWriteTx")
